@@ -300,6 +300,140 @@ class Fn:
         raise cp.ParseError("line %d: statement kind %s" % (line, k))
 
 
+# --------------------------------------------------------------------------------------------- R17.8 callback argument roles
+# reference: the argument convention of every callback-taking function named by the property (from today's prelude, confirmed by reading;
+# changing a convention changes what every caller's callback receives)
+ROLE_SPEC = {
+    ("for_each", 2): {"func": {("elem:0",)}},
+    ("map", 3): {"func": {("elem:0",)}, "inserter": {("result:func",)}},
+    ("map", 2): {"func": {("elem:0",)}},
+    ("filter", 3): {"f": {("elem:0",)}, "inserter": {("elem:0",)}},
+    ("filter", 2): {"f": {("elem:0",)}},
+    ("foldl", 3): {"func": {("elem:0", "acc")}},
+    ("reduce", 2): {"func": {("acc", "elem:0")}},
+    ("any_of", 2): {"func": {("elem:0",)}},
+    ("all_of", 2): {"func": {("elem:0",)}},
+    ("take_while", 3): {"f": {("elem:0",)}, "inserter": {("elem:0",)}},
+    ("take_while", 2): {"f": {("elem:0",)}},
+    ("drop_while", 3): {"f": {("elem:0",)}, "inserter": {("elem:0",)}},
+    ("drop_while", 2): {"f": {("elem:0",)}},
+    ("zip_with", 4): {"f": {("elem:1", "elem:2")}, "inserter": {("result:f",)}},
+    ("zip_with", 3): {"f": {("elem:1", "elem:2")}},
+}
+
+
+class Roles:
+    """for each prelude function and each callable parameter: the set of argument-role tuples with which the callback is applied,
+    directly or through another prelude function it is handed to"""
+
+    def __init__(self, defs):
+        self.defs = {}
+        for d in defs:
+            if not d.get("cls"):
+                self.defs.setdefault((d["name"], len(d["params"])), d)
+        self.memo = {}
+        self.active = set()
+
+    def summary(self, key):
+        if key in self.memo:
+            return self.memo[key]
+        if key in self.active or key not in self.defs:
+            return {}
+        self.active.add(key)
+        d = self.defs[key]
+        params = [p["name"] for p in d["params"]]
+        views = {}    # local view -> source expression
+        inits = {}    # local -> init expression
+        accs = set()
+        for n in cp.walk(d["body"]):
+            if n.get("k") == "decl" and n.get("init") is not None:
+                src = is_range_ctor(n["init"])
+                if src is not None:
+                    views[n["name"]] = src
+                inits[n["name"]] = n["init"]
+        callables = {n["f"]["name"] for n in cp.walk(d["body"]) if n.get("k") == "call" and n["f"]["k"] == "id" and n["f"]["name"] in params}
+        # parameters handed on to another prelude function in a callback position count as callables too
+        changed = True
+        while changed:
+            changed = False
+            for n in cp.walk(d["body"]):
+                if n.get("k") == "call" and n["f"]["k"] == "id" and (n["f"]["name"], len(n["args"])) in self.defs and (n["f"]["name"], len(n["args"])) != key:
+                    sub = self.summary((n["f"]["name"], len(n["args"])))
+                    gp = [p["name"] for p in self.defs[(n["f"]["name"], len(n["args"]))]["params"]]
+                    for j, a in enumerate(n["args"]):
+                        if a["k"] == "id" and a["name"] in params and gp[j] in sub and a["name"] not in callables:
+                            callables.add(a["name"])
+                            changed = True
+        for n in cp.walk(d["body"]):
+            # accumulators: locals that receive the result of a callback application (or of a function the callback was handed to)
+            tgt = rhs = None
+            if n.get("k") == "assign" and n["l"]["k"] == "id":
+                tgt, rhs = n["l"]["name"], n["r"]
+            elif n.get("k") == "decl" and n.get("init") is not None:
+                tgt, rhs = n["name"], n["init"]
+            if tgt is not None and tgt not in params and any(x.get("k") == "call" and x["f"]["k"] == "id" and x["f"]["name"] in callables for x in cp.walk(rhs)):
+                accs.add(tgt)
+
+        def source_param(e, depth=0):
+            r = root_id(e)
+            if r in params:
+                return params.index(r)
+            if r in views and depth < 5:
+                return source_param(views[r], depth + 1)
+            if r in inits and depth < 5:
+                return source_param(inits[r], depth + 1)
+            return None
+
+        def role(a):
+            if a["k"] == "call" and a["f"]["k"] == "member" and a["f"]["name"] in ("front", "back"):
+                k = source_param(a["f"]["obj"])
+                return "elem:%s" % ("?" if k is None else k)
+            if a["k"] == "index":
+                k = source_param(a["obj"])
+                return "elem:%s" % ("?" if k is None else k)
+            if a["k"] == "call" and a["f"]["k"] == "id" and a["f"]["name"] in callables:
+                return "result:" + a["f"]["name"]
+            if a["k"] == "id":
+                if a["name"] in accs:
+                    return "acc"
+                if a["name"] in params:
+                    # a parameter that seeds an accumulator is the accumulator's initial value
+                    return "acc" if any(v in accs and inits[v].get("k") == "id" and inits[v]["name"] == a["name"] for v in inits) else "param:%d" % params.index(a["name"])
+            return "other"
+
+        out = {}
+        for n in cp.walk(d["body"]):
+            if n.get("k") != "call" or n["f"]["k"] != "id":
+                continue
+            fname = n["f"]["name"]
+            if fname in callables:
+                out.setdefault(fname, set()).add(tuple(role(a) for a in n["args"]))
+            gkey = (fname, len(n["args"]))
+            if gkey in self.defs and gkey != key:
+                sub = self.summary(gkey)
+                gp = [p["name"] for p in self.defs[gkey]["params"]]
+                for j, a in enumerate(n["args"]):
+                    if a["k"] == "id" and a["name"] in callables and gp[j] in sub:
+                        for tup in sub[gp[j]]:
+                            mapped = []
+                            for r in tup:
+                                if r.startswith("elem:") and r[5:].isdigit():
+                                    k = source_param(n["args"][int(r[5:])])
+                                    mapped.append("elem:%s" % ("?" if k is None else k))
+                                elif r.startswith("param:"):
+                                    mapped.append(role(n["args"][int(r[6:])]))
+                                elif r.startswith("result:"):
+                                    idx = gp.index(r[7:]) if r[7:] in gp else None
+                                    aa = n["args"][idx] if idx is not None else None
+                                    mapped.append("result:" + aa["name"] if aa is not None and aa["k"] == "id" and aa["name"] in callables else "other")
+                                else:
+                                    mapped.append(r)
+                            out.setdefault(a["name"], set()).add(tuple(mapped))
+        self.active.discard(key)
+        self.memo[key] = out
+        return out
+
+
 def run(chk):
     text, first_line, relfile = prelude_text()
     chk.explanation = ("Script lint over the prelude's source text (extracted from the raw string literal in chaiscript_prelude.hpp on every run, "
@@ -366,6 +500,32 @@ def run(chk):
     rules["R17.1"].anchor(nloops >= 15, "loops in the prelude (found %d)" % nloops)
     rules["R17.1"].require(15, "loop-carrying functions")
     rules["R17.5"].require(50, "prelude functions")
+
+    # ------------------------------------------------------------------ R17.8 callback argument roles
+    r8 = chk.rule("R17.8", "every application of a callback parameter - direct or through another library function the callback is handed to - passes the "
+                           "same roles (element of which input, accumulator, result of another callback) in the same positions, and they are the roles of the reference table",
+                  "the callback receives the elements in order and the accumulator in the documented position (reduce: f(acc, elem); foldl: f(elem, acc); zip_with: f(x_i, y_i))")
+    roles = Roles(defs)
+    ncb = 0
+    for key in sorted(roles.defs):
+        d = roles.defs[key]
+        summ = roles.summary(key)
+        spec = ROLE_SPEC.get(key)
+        for cb in sorted(set(summ) | set(spec or {})):
+            got = summ.get(cb, set())
+            ncb += 1
+            fname = "%s/%d" % key
+            where = "%s:%d" % (relfile, first_line + d["line"] - 1)
+            uniform = len(got) == 1
+            r8.ob("prelude %s: callback %s is applied with one argument convention" % (fname, cb), uniform, where, "prelude:" + fname,
+                  "applications of %s use the conventions %s" % (cb, sorted(got) or "none (the callback is never applied)"))
+            if spec is not None:
+                want = spec.get(cb)
+                r8.ob("prelude %s: callback %s receives %s" % (fname, cb, sorted(want) if want else "nothing (not a callback of the reference table)"), got == want, where, "prelude:" + fname,
+                      "applications of %s use %s, the reference convention is %s" % (cb, sorted(got), sorted(want) if want else None))
+    missing8 = [k for k in ROLE_SPEC if k not in roles.defs]
+    r8.anchor(not missing8, "callback-taking prelude functions of the reference table (missing: %s)" % missing8)
+    r8.require(20, "callback parameters")
 
     # ------------------------------------------------------------------ R17.6 (C++ side)
     r6 = chk.rule("R17.6", "advancing a range view (Bidir_Range) only moves the view's own iterators",
